@@ -730,6 +730,9 @@ func (w *world) randomReqSpec0(rng *mrand.Rand, prop string) reqSpec {
 			rs.xfHost = []string{"public.example.org", "app.test:8443"}[rng.Intn(2)]
 		}
 	}
+	if (prop == "C15" || prop == "C11" || prop == "C03") && rng.Intn(3) == 0 || rng.Intn(12) == 0 { // no proxy in front: the middleware's server terminates TLS itself
+		rs.tls = true
+	}
 	if (prop == "C17" || prop == "C11") && rng.Intn(4) == 0 { // forwarding headers as chained or broken proxies produce them
 		rs.xfProto = []string{"https,http", "https, http", "1https", "HTTPS", "ht tp", "https://", ""}[rng.Intn(7)]
 		rs.xfHost = []string{"app test", "app.test%zz", "app.test:http", "[::1", "app.test, proxy.internal", "a\"b.test", ""}[rng.Intn(7)]
@@ -1278,7 +1281,7 @@ func (w *world) scripted(prop string, sc int, rng *mrand.Rand) {
 		if obs != nil && obs["class"] == "redirectAuth" {
 			ir := w.lastInit[w.b]
 			// the callback must present the same origin as the initiation (redirect_uri is checked by the provider)
-			w.callback(ir.state, w.authorize(ir), w.randomTokOpts(rng, true), "", reqSpec{xfProto: rs.xfProto, xfHost: rs.xfHost, note: "callback: post-login redirect"}, rng)
+			w.callback(ir.state, w.authorize(ir), w.randomTokOpts(rng, true), "", reqSpec{xfProto: rs.xfProto, xfHost: rs.xfHost, tls: rs.tls, note: "callback: post-login redirect"}, rng)
 		}
 	}
 }
